@@ -169,7 +169,8 @@ def run_property(prop_id, tier, only=None, jobs=None):
         if v["sig"] in seen:
             continue
         seen.add(v["sig"])
-        print(f"  violation sig={v['sig']}\n    {v['detail'][:600]}")
+        if len(seen) <= 12:
+            print(f"  violation sig={v['sig']}\n    {v['detail'][:600]}")
         print(f"VIOLATION property={prop_id} replay={v['path']}")
         status = max(status, 1)
     for sub, err in errors:
@@ -203,7 +204,7 @@ def run_property(prop_id, tier, only=None, jobs=None):
     }
     if all_exh:
         ev["coverage"]["exhaustive"] = False  # only the named sub-spaces are exhaustive
-    if only is None:
+    if only is None and not os.environ.get("VERIF_NO_EVIDENCE"):
         os.makedirs(os.path.join(VERIF, "evidence"), exist_ok=True)
         with open(os.path.join(VERIF, "evidence", f"{prop_id}.json"), "w") as fh:
             json.dump(core.jsonable(ev), fh, indent=1, sort_keys=True)
